@@ -221,6 +221,21 @@ func TestIssuer(t *testing.T) {
 		c = base
 		c.requestKey, c.aadKey = ork, ork // consistent AAD and wire key, but signed by another key
 		mustReject(t, s, iss, c.build(), "crafted-signature-by-different-key")
+		// the HONEST request's ciphertext and name key id (the issuer has just decrypted them) re-bound to the attacker's
+		// request key and validly signed by the attacker: the AAD binds the ciphertext to the original request key
+		{
+			ct := honest[85 : 85+ctLen]
+			msg := ref.EncodeRateLimitedRequest(rk, honest[51:83], ct, nil)
+			d := sha512.Sum384(msg)
+			r, sv, err := stdecdsa.Sign(rand.Reader, signer, d[:])
+			if err != nil {
+				t.Fatalf("harness: %v", err)
+			}
+			sig := make([]byte, 96)
+			r.FillBytes(sig[:48])
+			sv.FillBytes(sig[48:])
+			mustReject(t, s, iss, append(msg, sig...), "honest-ciphertext-rebound-to-attacker-key")
+		}
 		c = base
 		c.inner = ref.EncodeInnerRequest(sess.KeyID[0], blindedMsg, pad(sess.Origin+".unregistered"))
 		if iss.OriginIndexKey(sess.Origin+".unregistered") == nil {
